@@ -321,7 +321,7 @@ class Proc(object):
             return t, ty
         if isinstance(ty, tuple) and ty[0] == "Opt" and isinstance(ty[1], tuple) and ty[1][0] == "Rec":
             return ("%s.isSome" % t, "Bool")          # objects are truthy
-        if isinstance(ty, tuple) and ty[0] == "List":
+        if isinstance(ty, tuple) and ty[0] in ("List", "Set"):
             return ("(!%s.isEmpty)" % t, "Bool")
         if isinstance(ty, tuple) and ty[0] == "Opt" and isinstance(ty[1], tuple) and ty[1][0] == "List":
             return ("(match %s with | some (_ :: _) => true | _ => false)" % t, "Bool")
@@ -402,6 +402,14 @@ class Proc(object):
         raise Untranslatable("operands of types %s and %s" % (xty, yty))
 
     def binop(self, e, env):
+        if isinstance(e.op, (ast.BitXor, ast.Sub, ast.BitOr)):
+            x, xty = self.expr(e.left, env)
+            if isinstance(xty, tuple) and xty[0] == "Set":
+                y, yty = self.expr(e.right, env)
+                if yty != xty:
+                    raise Untranslatable("set operation on %s and %s" % (xty, yty))
+                fn = {ast.BitXor: "setSymDiff", ast.Sub: "setDiff", ast.BitOr: "setUnion"}[type(e.op)]
+                return ("(%s %s %s)" % (fn, x, y), xty)
         if isinstance(e.op, ast.Mod) and self.const_str(e.left, env) is not None:
             # a formatted piece used as a VALUE (collected in a list and joined later): a token
             return (self.fmt_tok(e, env), "Tok")
@@ -594,6 +602,10 @@ class Proc(object):
             if len(e.args) != len(argtys):
                 raise Untranslatable("arity of %s" % fname)
             parts = [self.coerce(*self.expr(a, env), w) for a, w in zip(e.args, argtys)]
+            names = self.spec.get("rec_field_names", {}).get(fname)
+            if names:
+                # the constructor's arguments by the record's field names (the record may list them in another order and have further fields with defaults)
+                return ("({ %s } : %s)" % (", ".join("%s := %s" % (n, p_) for n, p_ in zip(names, parts)), rec), ("Rec", rec))
             return ("(%s.mk %s)" % (rec, " ".join(parts)), ("Rec", rec))
         if fname in self.spec.get("constructors", {}):
             # a namedtuple constructor: the tuple of its arguments
@@ -671,6 +683,18 @@ class Proc(object):
             t, ty = self.expr(f.value, env)
             if ty == "Str":
                 return ("(%s %s '%s')" % ("pySplitFirst" if f.attr == "split" else "pyRSplitLast", t, e.args[0].value), ("List", "Str"))
+        if fname == "set" and len(e.args) == 1:
+            a0 = e.args[0]
+            if isinstance(a0, ast.Call) and isinstance(a0.func, ast.Attribute) and a0.func.attr == "keys" and not a0.args:
+                t, ty = self.expr(a0.func.value, env)
+                if isinstance(ty, tuple) and ty[0] == "ODict":
+                    return ("(%s.map fun e => e.1)" % t, ("Set", ty[1]))          # the keys of a dictionary are distinct
+            t, ty = self.expr(a0, env)
+            if isinstance(ty, tuple) and ty[0] == "List":
+                return ("(listToSet %s)" % t, ("Set", ty[1]))
+            if isinstance(ty, tuple) and ty[0] == "Set":
+                return (t, ty)
+            raise Untranslatable("set of %s" % (ty,))
         if fname == "set" and not e.args:
             # a set that the function only adds to, tests membership of and sorts: the list of its distinct members in order of first insertion
             # (`.add` -> setAdd); iterating over it directly is refused (Python leaves that order unspecified)
@@ -1054,6 +1078,9 @@ class Proc(object):
                     for a in (list(c.args) + [kw.value for kw in c.keywords]) if via_args else []:
                         if isinstance(a, ast.Name):
                             out.add(a.id)
+                if isinstance(n, ast.Assign) and isinstance(n.value, ast.Call) and isinstance(n.value.func, ast.Attribute) and n.value.func.attr == "setdefault" \
+                        and isinstance(n.value.func.value, ast.Name):
+                    out.add(n.value.func.value.id)
                 if isinstance(n, (ast.Assign, ast.AugAssign)):
                     for t in (n.targets if isinstance(n, ast.Assign) else [n.target]):
                         for m in ast.walk(t):
@@ -1093,6 +1120,15 @@ class Proc(object):
             if isinstance(ty, tuple) and ty[0] == "Except" and ty == self.ret:
                 return t
             return self.wrap_ret(t, ty)
+        if isinstance(s, ast.Assign) and rest and isinstance(rest[-1], ast.Raise) and all(isinstance(x, ast.Assign) for x in rest[:-1]) and self.ret[0] == "Except" \
+                and not self.at_dest_level() and all(len(x.targets) == 1 and isinstance(x.targets[0], ast.Name) for x in [s] + rest[:-1]) \
+                and all(not any(isinstance(n, ast.Call) and not (isinstance(n.func, ast.Attribute) and n.func.attr in ("join", "format")) and not (isinstance(n.func, ast.Name) and n.func.id == "sorted")
+                                for n in ast.walk(x.value)) for x in [s] + rest[:-1]):
+            # a run of assignments that only build the message (join / format / sorted of values already computed) and then raise it: the message text identifies the error
+            text = " ".join((ast.get_source_segment(self.src, x) or "") for x in [s] + rest)
+            for sub, tag in self.spec.get("raises", []):
+                if sub in text:
+                    return "(.error %s)" % tag
         if isinstance(s, ast.Assign) and len(s.targets) == 1 and isinstance(s.targets[0], ast.Name) and rest and isinstance(rest[0], ast.Raise) \
                 and rest[0].exc is not None and any(isinstance(n, ast.Name) and n.id == s.targets[0].id for n in ast.walk(rest[0].exc)) and self.ret[0] == "Except" and not self.at_dest_level():
             # msg = "...".format(..) ; raise X(msg): the message text identifies the error
@@ -1151,7 +1187,7 @@ class Proc(object):
         if isinstance(s, ast.Assign) and len(s.targets) == 1 and isinstance(s.targets[0], ast.Name) and s.targets[0].id in self.spec.get("absent_objects", {}):
             return self.block(rest, env, k)          # zeroPair = ZeroPair(): the declared absent-object
         if isinstance(s, ast.Assign) and len(s.targets) == 1 and isinstance(s.targets[0], ast.Name) and isinstance(s.value, ast.Dict) and not s.value.keys \
-                and isinstance(self.spec.get("locals", {}).get(s.targets[0].id), tuple) and self.spec["locals"][s.targets[0].id][0] in ("AssocL", "MultiL"):
+                and isinstance(self.spec.get("locals", {}).get(s.targets[0].id), tuple) and self.spec["locals"][s.targets[0].id][0] in ("AssocL", "MultiL", "ODict"):
             txt, en = self.assign_name(s.targets[0], "[]", self.spec["locals"][s.targets[0].id], env)
             return txt + self.block(rest, en, k)
         if isinstance(s, ast.Assign):
@@ -1206,6 +1242,25 @@ class Proc(object):
                 txt = "[" + ", ".join("(%s, %s)" % (a[0], b[0]) for a, b in zip(keys, vals)) + "]"
                 en = env.bind(name, lean, ("Assoc", keys[0][1], vals[0][1]))
                 return "let %s : List (%s × %s) := %s;\n%s" % (lean, lty(keys[0][1]), lty(vals[0][1]), txt, self.block(rest, en, k))
+            if isinstance(s.value, ast.Subscript) and isinstance(s.value.value, ast.Name) and s.value.value.id in env.vars and isinstance(tgt, ast.Name) \
+                    and isinstance(env.vars[s.value.value.id][1], tuple) and env.vars[s.value.value.id][1][0] in ("ODict", "AssocL") and self.spec.get("key_error") \
+                    and self.ret[0] == "Except" and self.seg(s.value) not in env.facts:
+                # x = d[key]: Python raises KeyError when the key is absent - the declared error constructor
+                d, dty = env.vars[s.value.value.id]
+                key = self.coerce(*self.expr(s.value.slice, env), dty[1])
+                n = env.fresh("found")
+                txt, en = self.assign_name(tgt, n, dty[2], env)
+                return "(match (lookupLast %s %s) with\n| some %s => %s%s\n| none => (.error %s))" % (d, key, n, txt, self.block(rest, en, k), self.spec["key_error"])
+            if isinstance(s.value, ast.Call) and isinstance(s.value.func, ast.Attribute) and s.value.func.attr == "setdefault" and isinstance(s.value.func.value, ast.Name) \
+                    and len(s.value.args) == 2 and s.value.func.value.id in env.vars and isinstance(env.vars[s.value.func.value.id][1], tuple) \
+                    and env.vars[s.value.func.value.id][1][0] == "ODict" and isinstance(tgt, ast.Name):
+                # x = d.setdefault(key, default): the dictionary gains the entry when the key is new; x is the entry now held
+                d, dty = env.vars[s.value.func.value.id]
+                key = self.coerce(*self.expr(s.value.args[0], env), dty[1])
+                dv = self.coerce(*self.expr(s.value.args[1], env), dty[2])
+                txt1, en = self.assign_name(s.value.func.value, "(odictSetDefault %s %s %s)" % (d, key, dv), dty, env)
+                txt2, en = self.assign_name(tgt, "((lookupLast %s %s).getD %s)" % (en.vars[s.value.func.value.id][0], key, dv), dty[2], en)
+                return txt1 + txt2 + self.block(rest, en, k)
             vt, vty = self.expr(s.value, env)
             if isinstance(vty, tuple) and vty[0] == "Except":
                 # binding the result of a raising proc: propagate the error
@@ -1259,6 +1314,25 @@ class Proc(object):
                     raise Untranslatable("call of a raising function in a function that does not raise")
                 return self.bind_raising(vt, "_", self.block(rest, env, k), env)
             raise Untranslatable("expression statement %s" % (self.seg(s.value) or "")[:50])
+        if isinstance(s, ast.Try) and len(s.body) == 1 and isinstance(s.body[0], ast.Return) and isinstance(s.body[0].value, ast.Call) \
+                and self.seg(s.body[0].value.func) in self.spec.get("try_ops", {}) and len(s.handlers) == 1 and len(s.handlers[0].body) == 1 and not s.orelse and not s.finalbody:
+            # try: return obj.get(key, 'property')  except SomeException: raise ... / return <default>  - the look-up declared as an operation returning an Option
+            c = s.body[0].value
+            table = self.spec["try_ops"][self.seg(c.func)]
+            sel = c.args[-1].value if c.args and isinstance(c.args[-1], ast.Constant) else None
+            if sel not in table:
+                raise Untranslatable("try around an undeclared look-up %s" % sel)
+            lname, rty = table[sel]
+            args = [self.expr(a, env)[0] for a in c.args[:-1]]
+            h = s.handlers[0].body[0]
+            n = env.fresh("found")
+            if isinstance(h, ast.Raise):
+                other = "(.error %s)" % self.err_tag(h.exc)
+            elif isinstance(h, ast.Return):
+                other = self.wrap_ret(*self.expr(h.value, env))
+            else:
+                raise Untranslatable("try handler shape")
+            return "(match (%s %s) with\n| some %s => %s\n| none => %s)" % (lname, " ".join(args), n, self.wrap_ret(n, rty), other)
         if isinstance(s, ast.Try):
             # try: X = rec.attr[key]  except KeyError: raise ...   - the look-up declared as partial (try_subscripts): absent key -> the error
             ok = len(s.body) == 1 and isinstance(s.body[0], ast.Assign) and len(s.body[0].targets) == 1 and isinstance(s.body[0].targets[0], ast.Name) \
@@ -1357,6 +1431,11 @@ class Proc(object):
         if s.orelse or not (isinstance(s.target, ast.Name) or (isinstance(s.target, ast.Tuple) and all(isinstance(t, ast.Name) for t in s.target.elts))):
             raise Untranslatable("for loop shape")
         xs, xty = self.expr(s.iter, env)
+        if isinstance(xty, tuple) and xty[0] == "ODict":
+            xs, xty = "(%s.map fun e => e.1)" % xs, ("List", xty[1])          # iterating a dictionary: its keys, in order of first insertion
+        if isinstance(xty, tuple) and xty[0] == "Set" and self.spec.get("set_order"):
+            # iterating a set: Python leaves the order open - the order is an operation handed to the translated function (any permutation: theorems quantify over it)
+            xs, xty = "(%s %s)" % (self.spec["set_order"], xs), ("List", xty[1])
         if not (isinstance(xty, tuple) and xty[0] == "List"):
             raise Untranslatable("for over %s" % (xty,))
         self.loopn += 1
@@ -1499,6 +1578,8 @@ class Proc(object):
             if self.spec.get("generator"):
                 return self.wrap_ret(*en.vars["_yielded"])
             raise Untranslatable("control can fall off the end of a function that must return a %s" % lty(inner))
+        for n in self.spec.get("unit_locals", []):
+            env.vars[n] = ("()", "Unit")          # a helper object whose construction is skipped; its methods are operations handed to the translated function
         if self.spec.get("generator"):
             env.vars["_yielded"] = ("([] : %s)" % lty(self.inner_ret()), self.inner_ret())
             self.declared_types["_yielded"] = self.inner_ret()
@@ -1532,6 +1613,13 @@ CP_REC = {"CpRec": {"tabulation": ("tabulation", ("Rec", "TabSec"))},
           "RCut": {"cutoff": ("cutoff", "Rat"), "nr": ("nr", "Int")},
           "RRhoCut": {"cutoff": ("cutoff", "Rat"), "nr": ("nr", "Int"), "cutoff_rho": ("cutoff_rho", "Rat"), "nrho": ("nrho", "Int")}}
 REG_REC = {"DefRec": {"signature": ("signature", ("Rec", "SigRec"))}, "SigRec": {"label": ("label", "Str")}, "TDefRec": {"name": ("name", "Str")}, "FuncObj": {}, "FormObj": {}}
+EBF = "config/_eam_potential_builder.py"
+EB_REC = {"EmbRow": {"species": ("species", "Str"), "potential_form_instance": ("pfi", ("Rec", "Pfi"))}, "Pfi": {},
+          "CpEam": {"eam_embed": ("eam_embed", ("List", ("Rec", "EmbRow"))), "eam_density": ("eam_density", ("List", ("Rec", "EmbRow")))}, "FnRec": {}}
+REF_OPS = [("refMass", ("Fun", ["Str"], ("Opt", "Rat"))), ("refNumber", ("Fun", ["Str"], ("Opt", "Int"))), ("refLatticeConstant", ("Fun", ["Str"], ("Opt", "Rat"))),
+           ("refLatticeType", ("Fun", ["Str"], ("Opt", "Str")))]
+REF_TRY = {"self._reference_data.get": {"atomic_mass": ("refMass", "Rat"), "atomic_number": ("refNumber", "Int"), "lattice_constant": ("refLatticeConstant", "Rat"),
+                                        "lattice_type": ("refLatticeType", "Str")}}
 ENT_REC = {"PairEnt": {"species": ("species", ("List", "Str"))}, "ElEnt": {"species": ("species", "Str")}}
 CFG_REC = {"CfgRec": {}}
 CFG_METHODS = {("CfgRec", "has_section"): ("cfgHas", ["Str"], "Bool"), ("CfgRec", "__getitem__"): ("cfgKeys", ["Str"], ("List", "Str")),
@@ -1690,6 +1778,40 @@ PROCS = [
     dict(name="adp_tab_write", dest=True, file="eam_tabulation.py", func="ADP_EAMTabulation.write", writer=True, inout="fp",
          params=[("self", ("Rec", "EamTabRec")), ("fp", "Stream")], ret="Stream", records=EAMTAB_REC, properties=EAMTAB_PROPS,
          imports={"writeSetFL": ("_lammpsWriteEAM.py", "writeSetFL")}),
+    # ---- C03 / C04 / C05 / C12: the potable EAM builder (which species exist, in which order, what is zero-filled)
+    dict(name="eam_embed_species", file=EBF, func="EAM_Potential_Builder._embed_species", params=[("embed", ("List", ("Rec", "EmbRow")))], ret=("Set", "Str"), records=EB_REC),
+    dict(name="eam_density_species", file=EBF, func="EAM_Potential_Builder._density_species", params=[("density", ("List", ("Rec", "EmbRow")))], ret=("Set", "Str"), records=EB_REC),
+    dict(name="eam_extract_embed", file=EBF, func="EAM_Potential_Builder._extract_embed", params=[("cp", ("Rec", "CpEam"))], ret=("List", ("Rec", "EmbRow")), records=EB_REC),
+    dict(name="eam_extract_density", file=EBF, func="EAM_Potential_Builder._extract_density", params=[("cp", ("Rec", "CpEam"))], ret=("List", ("Rec", "EmbRow")), records=EB_REC),
+    dict(name="eam_to_dict", file=EBF, func="EAM_Potential_Builder._to_potential_form_dict", params=[("tuple_list", ("List", ("Rec", "EmbRow"))), ("potential_form_builder", "Unit")],
+         ret=("ODict", "Str", ("Rec", "FnRec")), records=EB_REC, implicit=[("mkFn", ("Fun", [("Rec", "Pfi")], ("Rec", "FnRec")))],
+         seg_ops={"potential_form_builder.create_potential_function": ("mkFn", [("Rec", "Pfi")], ("Rec", "FnRec"))}, locals={"d": ("ODict", "Str", ("Rec", "FnRec"))}),
+    dict(name="eam_embed_to_dict", file=EBF, func="EAM_Potential_Builder._embed_to_potential_form_dict", params=[("tuple_list", ("List", ("Rec", "EmbRow"))), ("potential_form_builder", "Unit")],
+         ret=("ODict", "Str", ("Rec", "FnRec")), records=EB_REC, implicit=[("mkFn", ("Fun", [("Rec", "Pfi")], ("Rec", "FnRec")))]),
+    dict(name="eam_density_to_dict", file=EBF, func="EAM_Potential_Builder._density_to_potential_form_dict", params=[("tuple_list", ("List", ("Rec", "EmbRow"))), ("potential_form_builder", "Unit")],
+         ret=("ODict", "Str", ("Rec", "FnRec")), records=EB_REC, implicit=[("mkFn", ("Fun", [("Rec", "Pfi")], ("Rec", "FnRec")))]),
+    dict(name="eam_add_null_embed", file=EBF, func="EAM_Potential_Builder._add_null_embedding_functions", inout="embed_dict",
+         params=[("cp", ("Rec", "CpEam")), ("embed_dict", ("ODict", "Str", ("Rec", "FnRec"))), ("density_dict", ("ODict", "Str", ("Rec", "FnRec")))], ret=("ODict", "Str", ("Rec", "FnRec")),
+         records=EB_REC, ops={"zero": ("zeroFn", [], ("Rec", "FnRec"))}),
+    dict(name="eam_add_null_dens", file=EBF, func="EAM_Potential_Builder._add_null_density_functions", inout="density_dict", set_order="setOrder",
+         params=[("cp", ("Rec", "CpEam")), ("embed_dict", ("ODict", "Str", ("Rec", "FnRec"))), ("density_dict", ("ODict", "Str", ("Rec", "FnRec")))], ret=("ODict", "Str", ("Rec", "FnRec")),
+         records=EB_REC, ops={"zero": ("zeroFn", [], ("Rec", "FnRec"))}, implicit=[("setOrder", ("Fun", [("List", "Str")], ("List", "Str")))]),
+    dict(name="eam_get_mass", file=EBF, func="EAM_Potential_Builder._get_mass", params=[("species", "Str")], ret=("Except", "BuildErr", "Rat"), implicit=REF_OPS, try_ops=REF_TRY,
+         raises=[("Could not find atomic mass", "BuildErr.noMass")]),
+    dict(name="eam_get_atomic_number", file=EBF, func="EAM_Potential_Builder._get_atomic_number", params=[("species", "Str")], ret=("Except", "BuildErr", "Int"), implicit=REF_OPS, try_ops=REF_TRY,
+         raises=[("Could not find atomic number", "BuildErr.noAtomicNumber")]),
+    dict(name="eam_get_lattice_constant", file=EBF, func="EAM_Potential_Builder._get_lattice_constant", params=[("species", "Str")], ret="Rat", implicit=REF_OPS, try_ops=REF_TRY),
+    dict(name="eam_get_lattice_type", file=EBF, func="EAM_Potential_Builder._get_lattice_type", params=[("species", "Str")], ret="Str", implicit=REF_OPS, try_ops=REF_TRY),
+    dict(name="eam_create_potential", file=EBF, func="EAM_Potential_Builder._create_eam_potential", key_error="BuildErr.keyError", implicit=REF_OPS,
+         params=[("species", "Str"), ("embed_dict", ("ODict", "Str", ("Rec", "FnRec"))), ("density_dict", ("ODict", "Str", ("Rec", "FnRec")))], ret=("Except", "BuildErr", ("Rec", "EamRec")),
+         records=dict(EAM_REC, **EB_REC), rec_constructors={"EAMPotential": ("EamRec", ["Str", "Int", "Rat", ("Rec", "FnRec"), ("Rec", "FnRec"), "Rat", "Str"])},
+         rec_field_names={"EAMPotential": ["species", "atomicNumber", "mass", "embed", "dens", "latticeConstant", "latticeType"]}),
+    dict(name="eam_init_potentials", file=EBF, func="EAM_Potential_Builder._init_eampotentials", inline=["_add_null_functions"], skip_assign_from=["Potential_Form_Builder"],
+         unit_locals=["potential_form_builder"], set_order="setOrder",
+         params=[("self.add_undefined", "Bool"), ("cp", ("Rec", "CpEam")), ("potential_form_registry", "Unit"), ("modifier_registry", "Unit")],
+         ret=("Except", "BuildErr", ("List", ("Rec", "EamRec"))), records=dict(EAM_REC, **EB_REC),
+         implicit=[("mkFn", ("Fun", [("Rec", "Pfi")], ("Rec", "FnRec"))), ("setOrder", ("Fun", [("List", "Str")], ("List", "Str")))] + REF_OPS,
+         raises=[("species defined for density function do not match those for embedding functions", "BuildErr.speciesMismatch")], locals={"potlist": ("List", ("Rec", "EamRec"))}),
     # ---- C13: species filter
     dict(name="check_tuple", file="config/_filtered_config_parser.py", func="FilteredConfigParser._check_tuple",
          params=[("self._self_species_list", ("List", "Str")), ("self._self_exclude_flag", "Bool"), ("check_tuple", ("List", "Str"))], ret="Bool"),
@@ -1900,7 +2022,7 @@ structure EamRec where
   latticeType : String
   embed : FnRec
   dens : FnRec
-  densFS : List (String × FnRec)
+  densFS : List (String × FnRec) := []
 deriving Repr, Inhabited
 
 /-- an entry of `[Pair]` / `[EAM-Density]` (Finnis-Sinclair) as the species filter sees it: the tuple of species it mentions, and which entry it is -/
@@ -2077,6 +2199,35 @@ inductive RegErr where
   | sameCustomLabel | tableLabelTaken | caseOnlyDifference
 deriving DecidableEq, Repr
 
+/-- an `[EAM-Embed]` / `[EAM-Density]` row as the EAM builder reads it; the potential-form instance it carries is opaque (handed to the form builder) -/
+structure Pfi where
+  id : Nat
+deriving Repr, DecidableEq
+structure EmbRow where
+  species : String
+  pfi : Pfi
+deriving Repr, DecidableEq
+structure CpEam where
+  eam_embed : List EmbRow
+  eam_density : List EmbRow
+deriving Repr, DecidableEq
+inductive BuildErr where
+  | speciesMismatch | noMass | noAtomicNumber | keyError
+deriving DecidableEq, Repr
+/-- `zero()` -/
+def zeroFn : FnRec := ⟨0⟩
+
+/-- `set(xs)`: the distinct members, in order of first occurrence (only membership, set operations and `sorted` look at it; iteration goes through an explicit order) -/
+def listToSet {α : Type} [BEq α] : List α → List α
+  | [] => []
+  | x :: rest => x :: (listToSet rest).filter (fun y => !(y == x))
+def setDiff {α : Type} [BEq α] (a b : List α) : List α := a.filter fun x => !b.contains x
+def setUnion {α : Type} [BEq α] (a b : List α) : List α := a ++ setDiff b a
+def setSymDiff {α : Type} [BEq α] (a b : List α) : List α := setDiff a b ++ setDiff b a
+/-- `d.setdefault(k, v)` -/
+def odictSetDefault {κ β : Type} [BEq κ] (d : List (κ × β)) (k : κ) (v : β) : List (κ × β) :=
+  if d.any (fun e => e.1 == k) then d else d ++ [(k, v)]
+
 inductive SigErr where
   | sameVariable
 deriving DecidableEq, Repr
@@ -2149,6 +2300,30 @@ def prepare(spec, src, tree):
             if nm in spec.get("skip_assign_from", []):
                 continue
         body.append(st)
+    if spec.get("inline"):
+        # a call statement `self.helper(a, b, c)` whose arguments are exactly the helper's parameter names is replaced by the helper's body (a pure substitution)
+        def inline_in(stmts):
+            out_ = []
+            for st in stmts:
+                if isinstance(st, ast.If):
+                    st.body, st.orelse = inline_in(st.body), inline_in(st.orelse)
+                out_ += inline_one(st)
+            return out_
+
+        def inline_one(st):
+            newbody = []
+            c = st.value if isinstance(st, ast.Expr) and isinstance(st.value, ast.Call) else None
+            nm = c.func.attr if c is not None and isinstance(c.func, ast.Attribute) and isinstance(c.func.value, ast.Name) and c.func.value.id == "self" else None
+            if nm in spec["inline"]:
+                helper = find_function(tree, spec["func"].rsplit(".", 1)[0] + "." + nm)
+                hargs = [a.arg for a in helper.args.args if a.arg != "self"]
+                if [ast.unparse(a) for a in c.args] != hargs or c.keywords:
+                    raise Untranslatable("cannot inline %s: arguments differ from its parameter names" % nm)
+                newbody += [x for x in helper.body if not (isinstance(x, ast.Expr) and isinstance(x.value, ast.Constant))]
+            else:
+                newbody.append(st)
+            return newbody
+        body = inline_in(body)
     if spec.get("truncate_at"):
         # the function's first part only: cut before the named statement, the result is the named locals (what the rest of the function is handed)
         idx = next((i for i, st in enumerate(body) if (ast.get_source_segment(src, st) or "").replace(" ", "").startswith(spec["truncate_at"].replace(" ", ""))), None)
